@@ -410,6 +410,10 @@ def check_child(run, rng, name, h0, child, want, kw, w, rp, corpus, light=False)
         try:
             hs = child.hash(PW, **ck)
         except Exception as e:
+            if H.base_name(h0) == "scrypt" and isinstance(e, ValueError) and (want.get("d") or 16) >= 16 * (want.get("block_size") or 8):
+                # RFC 7914 requires N < 2^(128*r/8): cost 16 with block size 1 is not a parameter set of the algorithm (refused by the backend with a value error)
+                run.count("scrypt_rfc7914_limit_refused")
+                return
             run.violation(f"C09|{name}|hash-raises|{type(e).__name__}", f"{name}: hasher derived with valid settings cannot hash: {type(e).__name__}: {str(e)[:100]}", w, rp)
             return
         p = parsed(h0, hs)
